@@ -9,9 +9,14 @@ import (
 	"verif/sim/simrt"
 )
 
+// Every atomic operation synchronises with every other one (one shared clock: more ordering than the
+// memory model gives, which can only hide a race from the detector in simrt/hb.go, never invent one).
+var atomics = new(int)
+
 func pt() {
 	if s := simrt.S(); s != nil {
 		s.Point(simrt.KSync, "atomic")
+		s.AcqRel(atomics)
 	}
 }
 
